@@ -9,9 +9,14 @@ EXC_CLASSES = ("Tagged", "TaggedTimeout", "ValueError", "KeyError", "OSError", "
                "NotImplementedError", "RecursionError", "MemoryError", "UnicodeError", "ExceptionGroup", "BufferError",
                "asyncio.TimeoutError", "asyncio.InvalidStateError", "asyncio.QueueEmpty",
                "concurrent.futures.TimeoutError", "concurrent.futures.InvalidStateError", "concurrent.futures.BrokenExecutor",
+               "concurrent.futures.CancelledError",
                "trio.TooSlowError", "trio.ClosedResourceError", "trio.BrokenResourceError", "trio.RunFinishedError",
                "trio.BusyResourceError", "trio.WouldBlock", "trio.EndOfChannel", "trio.TrioInternalError")
-FAIL_KINDS = [{"kind": "exc", "cls": c} for c in EXC_CLASSES] + \
+# classes that asyncio / concurrent.futures treat specially when an exception crosses from one kind of
+# future to another (they are re-created or converted): over-represented on purpose
+CROSSING = ("TimeoutError", "asyncio.TimeoutError", "concurrent.futures.TimeoutError", "concurrent.futures.InvalidStateError",
+            "asyncio.InvalidStateError", "concurrent.futures.CancelledError")
+FAIL_KINDS = [{"kind": "exc", "cls": c} for c in EXC_CLASSES] + [{"kind": "exc", "cls": c} for c in CROSSING * 3] + \
              [{"kind": "value", "v": v} for v in ("zero", "zerof", "false", "empty", "list", "tuple", "one", "str", "obj", "falsyobj", "excobj")] + \
              [{"kind": "baseExc", "cls": c} for c in ("TaggedBase", "SystemExit", "GeneratorExit")]
 
@@ -59,6 +64,22 @@ def bystanders(rng, pid0, max_per=3, cleanup=False):
             ps.append(p)
             pid += 1
     return ps, pid
+
+
+def loop_killer(p):
+    """SystemExit / KeyboardInterrupt raised by an asyncio or thread payload stop the event loop at once"""
+    o = p.get("out") or {}
+    return p.get("fl") != "trio" and (o.get("kind") == "kbd" or o.get("cls") == "SystemExit")
+
+
+def no_swallow_with_loop_killers(payloads):
+    """a payload that suppresses its cancellation is re-cancelled by the closing runner every 0.1 s - unless the
+    loop was killed by SystemExit / KeyboardInterrupt: then asyncio.run's own single cancellation is all that is
+    left, and a payload that suppresses it keeps the loop alive. That is the payload's doing (asyncio: a
+    cancellation must not be suppressed); such combinations are not generated."""
+    if any(loop_killer(p) for p in payloads):
+        for p in payloads:
+            p.pop("swallow", None)
 
 
 def place(rng, payloads, pid0):
@@ -126,6 +147,7 @@ def fam_failure(rng):
         if rng.random() < 0.15:
             b["plainfn"] = True
     allp = by + fails
+    no_swallow_with_loop_killers(allp)
     before, control, helpers, pid = place(rng, allp, pid)
     allp += helpers
     n_wait = len(allp) - sum(1 for f in fails if f.get("callfail") and f["mode"] in ("queued", "service-before"))
@@ -160,6 +182,7 @@ def fam_termination(rng):
         pid += 1
         tail = [["set", "go"]]
     allp = by + extra
+    no_swallow_with_loop_killers(allp)
     before, control, helpers, pid = place(rng, allp, pid)
     allp += helpers
     control = [["wait-running"]] + control + [["wait-count", "start", len(allp), 3], ["sleep", rng.choice([0.0, 0.02, 0.06])]] + tail
